@@ -209,6 +209,7 @@ pub fn run(ctx: &Ctx) -> i32 {
         ("single_terminal".into(), Tree::T(1.5)),
     ];
     games.extend(crate::checks::c06::collision_games().into_iter().filter(|(n, _)| n == "two_level_shared" || n == "shared_chance_below" || n == "wide_shared_nondyadic"));
+    games.extend(crate::cli::cli_games(false).into_iter().filter(|(n, _)| n == "escaped_names" || n == "hidden_then_own"));
     let tiny = Bounds { max_internal: 2, max_arity: 3, max_leaves: 5, chance_infosets: true, degenerate: true };
     let step = if ctx.thorough() { 11 } else { 45 };
     games.extend(skeletons(&tiny).iter().enumerate().filter(|(_, s)| crate::checks::has_decision(s)).step_by(step).map(|(i, s)| (format!("u{}", i), fill_distinct(s, i))));
